@@ -351,6 +351,38 @@ theorem pending_verdict_survives_reads (c : Observe.Cfg) (l : C01.Lvl) (r t : Na
   show Observe.Ans.verdict (C01.allowedLevel (C01.incLevel c.max c.win l r t 1).1 r).2 = _
   rw [Observe.inc_increased_pending _ _ _ _ _ _ h]
 
+/-- PARTIAL (finding F18i): a transaction the quota counted within the limit is admitted when it asks, whatever
+    other transactions and metrics reads do in between — as long as none of them restarts the quota's window.
+    The full statement (no side condition) is false of the model and of the code:
+    `pending_verdict_lost_on_restart_witness`. -/
+theorem pending_verdict_survives_partial (c : Observe.Cfg) (l : C01.Lvl) (r t : Nat) (ops : List Observe.Op)
+    (h : Observe.counted c l r t = true)
+    (hq : Observe.quietFor c r (Observe.step c l (.inc r t)).1 ops = true) :
+    (Observe.step c (Observe.final c (Observe.step c l (.inc r t)).1 ops) (.allowed r)).2 = .verdict true := by
+  have hi : (C01.incLevel c.max c.win l r t 1).2 = .increased := by
+    simpa [Observe.counted] using h
+  have hm := Observe.inc_increased_memo _ _ _ _ _ _ hi
+  have hk : (Observe.final c (Observe.step c l (.inc r t)).1 ops).memo.lookup r = some (some 1) :=
+    Observe.quiet_keeps c r (some 1) ops _ hm hq
+  show Observe.Ans.verdict (C01.allowedLevel _ r).2 = _
+  unfold C01.allowedLevel
+  rw [hk]; rfl
+
+/-- F18i: request 2 is counted at second 59 of a 60 s window (2 of 5); request 3 arrives at second 61 and its
+    `Inc` restarts the window, which replaces the table of pending verdicts; request 2 is then refused although it
+    was counted within the limit and the new window holds 1 of 5.  One at a time, in either order, both are
+    admitted: no serial order explains the refusal. -/
+theorem pending_verdict_lost_on_restart_witness :
+    let c : Observe.Cfg := ⟨5, 60 * C01.nsPerSec⟩
+    let s := C01.nsPerSec
+    (Observe.run c C01.Lvl.init [.inc 1 0, .allowed 1, .inc 2 (59 * s), .inc 3 (61 * s), .allowed 3, .allowed 2]).map (·.2)
+        = [.ok, .verdict true, .ok, .ok, .verdict true, .verdict false]
+    ∧ (Observe.run c C01.Lvl.init [.inc 1 0, .allowed 1, .inc 2 (59 * s), .allowed 2, .inc 3 (61 * s), .allowed 3]).map (·.2)
+        = [.ok, .verdict true, .ok, .verdict true, .ok, .verdict true]
+    ∧ (Observe.run c C01.Lvl.init [.inc 1 0, .allowed 1, .inc 3 (61 * s), .allowed 3, .inc 2 (61 * s), .allowed 2]).map (·.2)
+        = [.ok, .verdict true, .ok, .verdict true, .ok, .verdict true] := by
+  decide
+
 /-- non-vacuity: request 2 is counted at second 58 of a 60 s window (2 of 5), metrics are read after the window
     has ended, and request 2 is admitted -/
 example : (Observe.run ⟨5, 60 * C01.nsPerSec⟩ C01.Lvl.init
